@@ -279,6 +279,9 @@ func runOutage(o outage, r *vx.Report) {
 	r.TracesValidated++
 	r.Transitions += e.Steps
 	r.DistinctNontriv++
+	if e.HarnessErr != "" {
+		r.HarnessErrs = append(r.HarnessErrs, fmt.Sprintf("reconnect outage j=%d limit=%d: %s", o.j, o.limit, e.HarnessErr))
+	}
 	for _, p := range e.Panics {
 		res.Violate("reconnect: panic", "%s", p)
 	}
@@ -365,6 +368,9 @@ func runFlap(j1, j2 int, r *vx.Report) {
 	r.TracesValidated++
 	r.Transitions += e.Steps
 	r.DistinctNontriv++
+	if e.HarnessErr != "" {
+		r.HarnessErrs = append(r.HarnessErrs, fmt.Sprintf("flapping j1=%d j2=%d: %s", j1, j2, e.HarnessErr))
+	}
 	for _, p := range e.Panics {
 		res.Violate("reconnect: panic", "%s", p)
 	}
